@@ -385,11 +385,11 @@ Qed.
 Lemma sel_ops_app : forall sk l1 l2, sel_ops sk (l1 ++ l2) = sel_ops sk l1 ++ sel_ops sk l2.
 Proof. intros. unfold sel_ops. apply flat_map_app. Qed.
 
-Lemma items_dead : forall sk (b : list req) c,
+Lemma items_dead : forall (b : list req) c,
   map it_req (map (fun q => (q, @None bool, c)) b) = b /\
   Forall (fun x : item => it_committed x = c) (map (fun q => (q, @None bool, c)) b).
 Proof.
-  intros sk b c. induction b as [|q b [IH1 IH2]]; cbn [map]; split; try constructor; auto.
+  intros b c. induction b as [|q b [IH1 IH2]]; cbn [map]; split; try constructor; auto.
   unfold it_req at 1. cbn [fst]. congruence.
 Qed.
 
@@ -414,8 +414,8 @@ Proof.
         -- destruct Hat as [_ [Hd _]]. rewrite Hd. apply txn_body_data.
         -- rewrite Hat. apply data_eq_refl.
     + cbn [rr_items rr_state concat].
-      pose proof (items_dead sk b c) as [Hb1 Hb2].
-      pose proof (items_dead sk (concat bs) false) as [Hr1 Hr2].
+      pose proof (items_dead b c) as [Hb1 Hb2].
+      pose proof (items_dead (concat bs) false) as [Hr1 Hr2].
       split.
       * rewrite map_app, Hb1, Hr1. reflexivity.
       * rewrite sel_ops_app, (sel_ops_const sk _ c Hb2), (sel_ops_const sk _ false Hr2), Hb1, app_nil_r.
